@@ -65,6 +65,9 @@ func c13Valid(c c13Case) bool {
 	if c.State == "manydown" && c.Which == "callinbatch" {
 		return false
 	}
+	if c.State == "otherdial" && c.Which == "callinbatch" {
+		return false
+	}
 	return true
 }
 
@@ -79,7 +82,7 @@ type c13Result struct {
 func c13Run(c c13Case) Outcome {
 	var o Outcome
 	res := inBubble(theT, func() { o = c13RunInBubble(c) })
-	if res.Frozen != "" && c.Companion && strings.Contains(res.Frozen, "github.com/tsuna/gohbase") {
+	if res.Frozen != "" && (c.Companion || c.State == "otherdial") && strings.Contains(res.Frozen, "github.com/tsuna/gohbase") {
 		// in these states (ZooKeeper / meta / probe / refused dial with a second request waiting) nothing in
 		// the client holds a lock across a wait: a goroutine parked on a client mutex for 40 s of real time
 		// is a request waiting, uninterruptibly, for whatever the other request is stuck in
@@ -112,7 +115,7 @@ func c13RunInBubble(c c13Case) (out Outcome) {
 			bounds = append(bounds, []byte(b))
 		}
 		cl.AddTable("t", bounds, []string{"rs2:16020"}, 1000, false)
-	} else if c.Split {
+	} else if c.Split || c.State == "otherdial" {
 		cl.AddTable("t", [][]byte{[]byte("m")}, []string{"rs2:16020", "rs3:16020"}, 1000, false)
 	} else {
 		cl.AddTable("t", [][]byte{[]byte("m")}, []string{"rs2:16020"}, 1000, false)
@@ -195,6 +198,9 @@ func c13RunInBubble(c c13Case) (out Outcome) {
 		gohbase.RegionReadTimeout(2*time.Second))
 
 	teardown := func() {
+		for _, a := range []string{"rs2:16020", "rs3:16020"} {
+			cl.SetServer(a, func(s *sim.ServerState) { s.DialHold = false })
+		}
 		cl.Lock()
 		cl.ZKHold, cl.MetaHold = false, false
 		for _, r := range cl.Regions {
@@ -221,6 +227,32 @@ func c13RunInBubble(c c13Case) (out Outcome) {
 		cl.Unlock()
 		cl.KillConns("rs2:16020")
 		synctest.Wait()
+	}
+	// otherdial: the request's own region is known and its server then refuses connections (as in
+	// dialrefused); meanwhile ANOTHER request is having a connection to the other server dialled, and that
+	// dial hangs: nothing about the other server may keep this request from noticing the end of its context
+	if c.State == "otherdial" {
+		mine, other := "rs2:16020", "rs3:16020"
+		otherKey := "z"
+		if bytes.Compare(c.Key, []byte("m")) >= 0 {
+			mine, other, otherKey = other, mine, "a"
+		}
+		g, _ := hrpc.NewGet(context.Background(), []byte("t"), c.Key, hrpc.Families(markerFam("mkwarm")))
+		if _, err := client.Get(g); err != nil {
+			teardown()
+			return viol("harness", "warm-up get failed: %v", err)
+		}
+		cl.SetServer(other, func(s *sim.ServerState) { s.DialHold = true })
+		go doOp(client, context.Background(), "t", opSpec{Kind: "get", Key: evid.B(otherKey), Marker: "mkotherdial"})
+		select {
+		case <-cl.DialHeld:
+		case <-time.After(time.Minute):
+			teardown()
+			out.Labels = append(out.Labels, "state_not_reached")
+			return out
+		}
+		cl.SetServer(mine, func(s *sim.ServerState) { s.Down = true })
+		cl.KillConns(mine)
 	}
 	// busy: stall the table's server after the probe and fill the pipe
 	fillers := 0
@@ -272,7 +304,7 @@ func c13RunInBubble(c c13Case) (out Outcome) {
 	}
 	defer endCancel()
 
-	if c.Companion {
+	if c.Companion && c.State != "otherdial" {
 		// (the other region of the table when there are two servers, else another row)
 		ck := evid.B("zz")
 		if bytes.Compare(c.Key, []byte("m")) >= 0 {
@@ -358,7 +390,7 @@ func c13RunInBubble(c c13Case) (out Outcome) {
 					return true
 				}
 			}
-		case "dialrefused":
+		case "dialrefused", "otherdial":
 			for _, d := range dials {
 				if d.Result == "refused" {
 					return true
@@ -538,7 +570,7 @@ func stringIndex(s, sub string) int {
 	return -1
 }
 
-var c13States = []string{"zk", "meta", "probe", "dialrefused", "backoff", "busy", "silent", "held", "manydown"}
+var c13States = []string{"zk", "meta", "probe", "dialrefused", "backoff", "busy", "silent", "held", "manydown", "otherdial"}
 
 func c13Fill(t *rapid.T, c *c13Case) {
 	c.N = rapid.IntRange(1, 8).Draw(t, "n")
@@ -595,7 +627,7 @@ func TestC13_Cancellation(t *testing.T) {
 	theT = t
 	rec := evid.New("C13", "TestC13_Cancellation",
 		"rapid over the enumerated cross product (entry point in {Get, Put, SendBatch, Scanner.Next}) x (wait state in "+
-			"{ZooKeeper lookup held, meta scan held, region probe held, dial refused repeatedly, the connection of a server with eight cached regions breaking while hbase:meta is silent, n-th retry back-off "+
+			"{ZooKeeper lookup held, meta scan held, region probe held, dial refused repeatedly, dial refused while another request's dial to another server hangs, the connection of a server with eight cached regions breaking while hbase:meta is silent, n-th retry back-off "+
 			"sleep n=1..8, busy send queue, silent server, response of one call held}) x (which context: the call's, the "+
 			"batch's, a single call's inside a batch) x (cancel, deadline), with drawn batch shapes, keys, queue/flush "+
 			"settings and retryable classes; optionally another request with a live context is already stuck in the same state. Virtual time: the state is confirmed through the simulated cluster before the "+
